@@ -38,6 +38,7 @@ func Validate(namespaces []*Namespace) (*Environment, error) {
 		assignUnionCaseTags,
 		topologicalSortTypes,
 		convertGenericReferences,
+		validateResolvedMapKeys,
 		validateUnionCases,
 		validateEnums,
 		resolveComputedFields,
